@@ -5,6 +5,10 @@ mod c09;
 mod c10;
 mod c11;
 mod c12;
+mod c13;
+mod c16;
+mod c17;
+mod c18;
 mod ciphers;
 mod common;
 mod selftest;
@@ -49,6 +53,10 @@ fn main() {
                 "C10" => c10::run(tier, seed),
                 "C11" => c11::run(tier, seed),
                 "C12" => c12::run(tier, seed),
+                "C13" => c13::run(tier, seed),
+                "C16" => c16::run(tier, seed),
+                "C17" => c17::run(tier, seed),
+                "C18" => c18::run(tier, seed),
                 other => {
                     eprintln!("unknown property {other}");
                     2
